@@ -267,6 +267,13 @@ P_C14(c) ==
        /\ tableFree => \A i \in 1..Len(ids) : \A j \in 1..Len(ms) :
                            (ids[i].vis /\ ms[j].name = ids[i].name
                             /\ Cardinality({q \in 1..Len(ids) : ids[q].name = ids[i].name}) = 1) => ms[j].before = ids[i].before
+       \* document order (outside tables): the markers of the ids with visible content appear in the
+       \* order of their elements (pre-order), also when several sit at the same place
+       /\ (tableFree /\ \A i, j \in 1..Len(ids) : i # j => ids[i].name # ids[j].name) =>
+             LET vis == SelectSeq(ids, LAMBDA x : x.vis)
+                 visNames == {vis[i].name : i \in 1..Len(vis)}
+                 obsNames == SelectSeq([j \in 1..Len(ms) |-> ms[j].name], LAMBDA nm : nm \in visNames) IN
+             obsNames = [i \in 1..Len(vis) |-> vis[i].name]
        \* markers carry no width
        /\ \A i \in 1..Len(a.res.lines) : a.res.sw[i] = SumW(NoFrags(a.res.lines[i]))
   \* the text does not depend on the ids
@@ -681,9 +688,12 @@ InlineOK(dom) == LET ns == NodesSeq(dom) IN
                     /\ HasAttr(ns[i], "style") => ns[i].a.style.ok
                     /\ HasAttr(ns[i], "color") => ns[i].a.color.ok
                     /\ HasAttr(ns[i], "bgcolor") => ns[i].a.bgcolor.ok
+\* (side-by-side table cells interleave their lines: compared as multisets there)
 ColourOK(c, run) ==
   (IsOk(run) /\ IsRichLines(run) /\ "css" \in DOMAIN c.meta /\ InlineOK(Dom1(c, run))) =>
-     ObsColours(run.res) = ExpColoursSeq(Dom1(c, run), Dom1(c, run), <<>>, CssOf(c, run), <<>>, <<>>)
+     LET obs == ObsColours(run.res)
+         exp == ExpColoursSeq(Dom1(c, run), Dom1(c, run), <<>>, CssOf(c, run), <<>>, <<>>) IN
+     IF HasTable(Dom1(c, run)) THEN BagOf(obs) = BagOf(exp) ELSE obs = exp
 P_C19(c) == \A i \in 1..Len(c.runs) : ColourOK(c, c.runs[i])
 P_C20(c) == \A i \in 1..Len(c.runs) : ColourOK(c, c.runs[i])
 
